@@ -6,6 +6,11 @@ BASE = "cd /repo && go test -mod=mod -json -vet=off -count=1 -timeout 25m ./..."
 
 CLAIMED = {
  # id: (category, text, design_ref, level_note, technique)
+ "C11": ("other",
+  "Narrow structural claim: the two Muskingum clauses of the property are decided by polynomial normal form on the kernel's SSA (nothing executed): with current inflow, previous inflow and previous outflow set to one symbol Q and no lateral, the routed outflow is identically Q after clearing the common denominator (the three weights sum to one for all k, x, dt), and the quantity carried as previous inflow is the same (upstream + lateral) quantity the first weight multiplies — this found a genuine volume leak of lateral inflow, now fixed. StorageRouting's per-step water balance and S-Q relation, non-negativity, and Lag's delay identity (incl. lags longer than the series) are value/index-arithmetic properties and are NOT decided.",
+  "DESIGN.md section 9.5",
+  "Carried variables are identified as the loop-carried values initialised from the states named prevInflow/prevOutflow in the spec.",
+  "symbolic polynomial normal forms with denominator clearing over go/ssa values"),
  "C10": ("other",
   "Narrow structural claim: one clause of the property is decided — 'reported components add up to the reported total (runoff = quick/surface flow + baseflow)'. For Simhyd, Surm and Sacramento the values written to the total and component outputs in a timestep are expanded to polynomials over the SSA values of that timestep and the identity total = sum of components is checked by normal form (nothing is executed). Finiteness, non-negativity, store bounds and the cumulative water balance over all parameter vectors and series are value properties and are NOT decided.",
   "DESIGN.md section 9.5",
@@ -94,7 +99,6 @@ CLAIMED = {
 }
 
 NOT_APPLICABLE = {
- "C11": "conservation, weights summing to one and the delay identity are arithmetic facts about runtime values; the structural part of Lag's carried buffer is covered under C06 (DESIGN.md section 5)",
  "C15": "equivalence with an external published formulation is a value property over the whole parameter box; no structural necessary condition that would not also fire on an equal rewrite (DESIGN.md section 5)",
  "C20": "monotonicity and bracketing of transcendental formulae are value properties; the one relational clause could only be matched as a frozen expression shape (DESIGN.md section 5)",
 }
